@@ -39,6 +39,15 @@ def Constraint.holds : Constraint → Int → Bool
 
 /-! ## Field images -/
 
+/-- Bit `i` of a byte. -/
+def bitOf (x : UInt8) (i : Nat) : Bool := x.toNat.testBit i
+
+/-- Bit `k` of the (infinite) two's complement representation of an integer. -/
+def intBit (v : Int) (k : Nat) : Bool :=
+  match v with
+  | .ofNat n => n.testBit k
+  | .negSucc n => !n.testBit k
+
 /-- Byte `j` (0 = first = most significant) of the `n`-byte big-endian two's complement image of
 `v`: the base-256 digit of weight `256^(n-1-j)` under floor division (`Int` `/`, `%` are the
 Euclidean ones, so negative values yield their two's complement digits). -/
@@ -83,8 +92,7 @@ def prmActual (blk : Bytes) (off : Nat) (t : DataType) (v : Int) : Bytes := prmW
 /-- Length of the block: it covers every constant and every referenced parameter
 (`UserPrmData::length` is not consulted). -/
 def blockLen (L : Layout) : Nat :=
-  (L.consts.map fun c => c.1 + c.2.length).foldl max
-    ((L.refs.map fun r => r.1 + r.2.dataType.size).foldl max 0)
+  ((L.consts.map fun c => c.1 + c.2.length) ++ (L.refs.map fun r => r.1 + r.2.dataType.size)).foldl max 0
 
 def overlayConsts (blk : Bytes) : List (Nat × Bytes) → Bytes
   | [] => blk
@@ -177,15 +185,19 @@ inductive Verdict
   | fail (why : String)
   deriving DecidableEq, Repr
 
+/-- The byte has a bit set outside the `BitArea` field (which the specification preserves and the
+code clears). -/
+def k2Type (t : DataType) (old : UInt8) : Bool :=
+  match t with
+  | .bitArea f l => old &&& ~~~ fieldMask f l != 0
+  | _ => false
+
 /-- The K2 class of a call: an accepted `BitArea(f,l)` write onto a byte that has a bit set outside
-`f..l` (which the specification preserves and the code clears). -/
+`f..l`. -/
 def k2Call (L : Layout) (blk : Bytes) (c : Call) : Bool :=
   match target L c with
   | .ok (off, d, v) =>
-    match d.dataType with
-    | .bitArea f l =>
-      d.constraint.holds v && d.dataType.holds v && (blk.getD off 0 &&& ~~~ fieldMask f l != 0)
-    | _ => false
+    d.constraint.holds v && d.dataType.holds v && k2Type d.dataType (blk.getD off 0)
   | .error _ => false
 
 def okIs (r : Except SetErr Bytes) (b : Bytes) : Bool :=
